@@ -16,8 +16,9 @@ RULE = ("histories drawn from one PRNG (VERIF_SEED): GRcreate (dims 1..9 x 1..9,
         "arguments (stride or count < 1); palettes attached or replaced in a LATER session for every image kind; "
         "old-style rasters (DFR8addimage with and without RLE, widths 1..9, 60, 119..131, 255..260 with runs of "
         "119..300 equal pixels; DF24addimage) read, dumped, rewritten through GR and reopened; direct DFCIrle + "
-        "DFCIunrle on rows of up to 400 bytes; GRwritechunk / GRreadchunk on chunk lengths dividing the dimensions.  Compressed (non-chunked) images are written once (the format does not "
-        "allow partial rewrites) and then only read.  A case is one compared operation result; it is non-trivial when "
+        "DFCIunrle on rows of up to 400 bytes; GRwritechunk / GRreadchunk on chunk lengths dividing the dimensions.  Every storage kind is rewritten (whole / region / strided) in the creating session and "
+        "after reopen; the fill value is set and changed while an image is still empty, between reads of the empty image "
+        "and before the first partial write; the FillValue attribute is read back.  A case is one compared operation result; it is non-trivial when "
         "it lies in the property's domain and transfers at least one pixel; distinct by (geometry, interlaces, "
         "storage, region, data)")
 TRUSTED = ["Coq 8.16.1 kernel",
@@ -41,7 +42,7 @@ ASSUMPTIONS = ["host is little-endian", "every generated history except the reje
                "DFNT_NATIVE number types are outside the domain (their file representation is machine-dependent)",
                "an image receives its first write in the session that created it (a partial first write in a later "
                "session is rejected by the library: fill_img is a per-session flag of GRcreate)",
-               "compressed, non-chunked images are written by one GRwriteimage call and then only read",
+               "the fill value is set / changed only while the image has no data (afterwards it no longer influences pixels)",
                "GRwritechunk / GRreadchunk are driven for chunk lengths that divide the image dimensions",
                "an old-style compressed raster (DFTAG_RLE) is rewritten through GR only with data of the same "
                "compressed size (it is recompressed in place and cannot grow; a larger image makes GRend FAIL)"]
@@ -163,10 +164,22 @@ def gen_image_history(r, hid, stats):
     for _ in range(nops):
         im = r.choice(ims)
         c = r.random()
+        if not im.written and not im.store.startswith("chunk") and r.random() < 0.35:
+            # the image has no data yet: read it (fill pixels), then set / change the fill value, read again ...
+            if r.random() < 0.5:
+                ops.append(op_read(im, rand_region(r, im)))
+                stats["read_unwritten"] += 1
+                im.read_empty = True
+            else:
+                ops.append(op_fill(r, im))
+                stats["fill_changed_before_data"] += 1
+                if getattr(im, "read_empty", False):
+                    stats["fill_changed_after_empty_read"] += 1
+            continue
         if c < 0.3:
+            reg = rand_region(r, im, "whole" if (im.store.startswith("comp") and r.random() < 0.3) else None)
             if im.store.startswith("comp") and im.written:
-                continue            # compressed images are written once
-            reg = rand_region(r, im, "whole" if (im.store.startswith("comp") and r.random() < 0.4) else None)
+                stats["comp_rewrite_%s" % ("later_session" if getattr(im, "reopened", False) else "same_session")] += 1
             ops.append(op_write(r, im, reg))
             kind = "whole" if reg == (0, 0, 1, 1, im.x, im.y) else ("solid" if reg[2] == 1 and reg[3] == 1 else "strided")
             stats["write_" + kind] += 1
@@ -176,6 +189,7 @@ def gen_image_history(r, hid, stats):
                     stats["first_write_trailing_rows"] += 1
             stats["wil_%d" % im.il] += 1
             im.written = True
+            im.dirty = True
         elif c < 0.42:
             il = r.randrange(3)
             ops.append("I %d %d" % (im.k, il))
@@ -188,10 +202,14 @@ def gen_image_history(r, hid, stats):
             stats["ilpair_%d_%d" % (im.il, getattr(im, "ril", 0))] += 1
             if not im.written:
                 stats["read_unwritten"] += 1
-        elif c < 0.86:
+        elif c < 0.84:
             ops.append("G %d" % im.k)
+        elif c < 0.87:
+            ops.append("A %d" % im.k)
         elif c < 0.9:
-            ops.append("D %d" % im.k)
+            # the raw element of a compressed image is only current once the buffered access has been ended
+            if not (im.store.startswith("comp") and getattr(im, "dirty", False)):
+                ops.append("D %d" % im.k)
         else:
             if not all(j.written or j.store.startswith("chunk") for j in ims):
                 continue            # an image gets its first write in the session that created it
@@ -200,6 +218,8 @@ def gen_image_history(r, hid, stats):
             for j in ims:
                 j.il = 0
                 j.ril = 0
+                j.reopened = True
+                j.dirty = False
     # always finish with reopen + full reads in a random interlace
     ops.append("E")
     for im in ims:
@@ -208,6 +228,7 @@ def gen_image_history(r, hid, stats):
         ops.append("I %d %d" % (im.k, il))
         ops.append(op_read(im, (0, 0, 1, 1, im.x, im.y)))
         ops.append("G %d" % im.k)
+        ops.append("A %d" % im.k)
         stats["ilpair_0_%d" % il] += 1
     return ops
 
@@ -520,7 +541,7 @@ def run_hist_file(ctx, hists, tag):
             fh.write("\n".join("\n".join(h) for h in todo) + "\n")
         rc, lines = vc.run_lines(exe, p, timeout=900)
         got = split_hist([l for l in lines if l[:2] in ("H ", "C ", "F ", "Z ", "K ", "W ", "I ", "J ", "R ", "G ", "L ",
-                                                        "P ", "E ", "E", "X ", "Y ", "D ", "V ", "O ", "U ")])
+                                                        "P ", "E ", "E", "X ", "Y ", "D ", "V ", "O ", "U ", "A ")])
         if rc == 0 and len(got) == len(todo):
             R += got
             break
@@ -578,6 +599,10 @@ def compare_history(h, r_lines, ms_lines):
                 rs = (i, opline, "(no output: harness died)", mres, sres)
             break
         rop, rres, rtr = parse_r(r_lines[i])
+        if op == "A" and sres == "none" and rres.startswith("ok") and all(t == "0" for t in rres.split()[1:]):
+            rres = "none"       # after a first partial write the library stores the default all-zero fill value
+        if op == "A" and mres == "none" and rres == "none":
+            mres = "none"
         if op == "P" and rres.startswith("ok 3 3 "):
             rres = "ok 3 21 " + rres[7:]      # DFNT_UCHAR8 and DFNT_UINT8 are the same 8-bit palette type
         if sres == "nodomain":
@@ -605,25 +630,32 @@ def compare_history(h, r_lines, ms_lines):
     return rs, rm, ncmp, ntr
 
 
-def fails_rs(ctx, h):
+def fails_rs(ctx, h, opkind=None):
     R, MS, crashes = run_hist_file(ctx, [h], "shrink")
     rs, rm, _, _ = compare_history(h, R[0] if R else [], MS[0])
-    return rs is not None
+    # a shrunk history must fail in the same kind of operation (removing operations can leave the domain, e.g. a
+    # first write that moves behind a reopen)
+    return rs is not None and (opkind is None or rs[1][:1] == opkind)
 
 
-def shrink(ctx, h, budget=60):
+def shrink(ctx, h, budget=60, opkind=None):
     """greedy delta debugging on the operation list (H and C lines are kept)"""
     cur = list(h)
     changed = True
     while changed and budget > 0:
         changed = False
         i = len(cur) - 1
+        firstw = {}
+        for n, l in enumerate(cur):
+            t = l.split()
+            if t[0] in "WKO" and t[1] not in firstw:
+                firstw[t[1]] = n
         while i >= 1 and budget > 0:
-            if cur[i][:1] not in "HC":
+            if cur[i][:1] not in "HC" and i not in firstw.values():
                 cand = cur[:i] + cur[i + 1:]
                 budget -= 1
                 try:
-                    if fails_rs(ctx, cand):
+                    if fails_rs(ctx, cand, opkind):
                         cur = cand
                         changed = True
                 except vc.BuildError:
@@ -637,26 +669,31 @@ def signature(h, mis):
     i, opline = mis[0], mis[1]
     k = opline.split()[1] if len(opline.split()) > 1 else "0"
     store = "plain"
-    il = "0"
+    coder = ""
     nt = 0
-    seen_write = reopened_after_write = False
+    seen_write = reopened_after_write = rewritten_later = False
     for l in h[:i]:
         t = l.split()
         if t[0] == "C" and t[1] == k:
-            nt, il = int(t[5]), t[6]
+            nt = int(t[5])
         if t[0] == "Z" and t[1] == k:
             store = "compressed"
+            coder = {"1": "rle", "3": "skphuff", "4": "deflate"}.get(t[2], t[2])
         if t[0] == "K" and t[1] == k:
             store = "chunked"
         if t[0] == "W" and t[1] == k:
+            if reopened_after_write:
+                rewritten_later = True
             seen_write, reopened_after_write = True, False
         if t[0] == "E":
             reopened_after_write = seen_write
     parts = ["op=" + opline[:1], "storage=" + store]
-    if store == "compressed" and seen_write and not reopened_after_write and opline[:1] in "RD":
+    if coder:
+        parts.append("coder=" + coder)
+    if store == "compressed" and seen_write and not reopened_after_write and opline[:1] in "RD" and not rewritten_later:
         parts.append("read-in-write-session")
-    if nt & LITEND:
-        parts.append("nt=litend")
+    if store == "compressed" and rewritten_later:
+        parts.append("rewritten-in-later-session")
     return " ".join(parts)
 
 
@@ -691,16 +728,20 @@ def check_batch(ctx, hists, tag, stats):
         stats["ops"] += len(h)
         stats["compared_results"] += ncmp
         for i, opline in enumerate(h):
-            if opline[:1] in "RWPVGOUXY":
+            if opline[:1] in "RWPVGOUXYA":
                 ctx.case((opline,), nontrivial=True,
                          sample=({"history": h[0], "op": opline[:100], "lib": (r_lines[i][:100] if i < len(r_lines) else "")}
                                  if (n % 53 == 0 and opline[:1] == "R") else None))
         crashed = [c for c in crashes if c[0] == n]
+        if rs is not None and ctx.match_known(signature(h, rs)) is not None:
+            ctx.violation("known finding", "\n".join(h), found=True, signature=signature(h, rs))
+            stats["known_finding_hits"] += 1
+            continue
         if rs is not None:
             small = h
             if len(ctx.violations) < 3:
                 try:
-                    small = shrink(ctx, h)
+                    small = shrink(ctx, h, opkind=rs[1][:1])
                     R1, MS1, _ = run_hist_file(ctx, [small], "rep")
                     rs1 = compare_history(small, R1[0] if R1 else [], MS1[0])[0]
                     if rs1 is not None:
